@@ -298,17 +298,18 @@ def run(ctx: Ctx):
             seen_sites = set()
             for tok, how, fq, line, construct in sorted(effs, key=lambda e: (e[2], e[3])):
                 origin = repo.functions.get(fq)
-                # one finding per (entry point, argument, kind of write, function that writes): the key
-                # names the call path that is defective and survives a re-wording of the store itself
-                if (how, fq) in seen_sites:
+                # one finding per (entry point, argument, kind of write): the key names the failing input -- which
+                # public function modifies which caller-owned argument -- and survives re-wording the store
+                # or moving it into a helper
+                if how in seen_sites:
                     continue
-                seen_sites.add((how, fq))
+                seen_sites.add(how)
                 ctx.finding(
                     "MUTATES-ARG",
                     f,
                     None,
                     f"public `{f.name}` can write into its caller-owned argument `{p}`: {how} `{construct[:90]}` at {origin.module.rel if origin else '?'}:{line} in `{fq.rsplit('.', 1)[-1]}`",
-                    construct=f"{p} <- {how} @{fq}",
+                    construct=f"{p} <- {how}",
                     mutating_function=fq,
                     line=line,
                     param=p,
